@@ -368,12 +368,33 @@ func runC08(c *Ctx) error {
 					if err != nil {
 						return err
 					}
-					for j := idx; j < len(chain); j++ {
-						chain[j].ctx = b.ctx
+					if c.Rng.IntN(3) == 0 && n >= 2 {
+						// the other announcement b really was delivered first, through the very same relays: R has
+						// verified these record bytes before.  Then a NEWER announcement of the origin arrives whose
+						// outermost record is genuine and whose inner records are b's, byte for byte.
+						chainB := append([]c08Rec(nil), chain...)
+						for j := range chainB {
+							chainB[j].ctx = b.ctx
+						}
+						R.inject(append(append([]byte(nil), b.base...), c08Encode(chainB)...), R.links[deliver.id.IP])
+						e.w.queue = nil
+						if a2, err := c08NewAnn(origin, a.msg.Stub, a.msg.ReturnLabel, exp); err == nil {
+							a = a2
+							chain[0].ctx = a2.ctx
+							for j := 1; j < len(chain); j++ {
+								chain[j].ctx = b.ctx
+							}
+							op, forged = "splice-after-genuine-delivery", true
+						}
 					}
-					op, forged = "splice-other-announcement", true
-					if o2 == origin {
-						op = "splice-same-origin-other-time"
+					if op != "splice-after-genuine-delivery" {
+						for j := idx; j < len(chain); j++ {
+							chain[j].ctx = b.ctx
+						}
+						op, forged = "splice-other-announcement", true
+						if o2 == origin {
+							op = "splice-same-origin-other-time"
+						}
 					}
 				}
 			case 6, 7:
